@@ -115,7 +115,8 @@ def z_position(draw, cz, th, allow_out=True, allow_top=True):
             z = float(np.nextafter(z, z + off))
         return z
     if kind == "zero" or kind == "edge":
-        return 0.0
+        # with wrapping allowed also the float artefacts around 0 that structure builders leave
+        return draw(st.sampled_from([0.0, 0.0, -1e-17, 1e-17, -3e-13])) if allow_out else 0.0
     if kind == "top":
         return draw(st.sampled_from([cz, cz - 1e-11, float(np.nextafter(cz, 0.0)), cz - 1e-9, cz - 3e-12]))
     return draw(gen.floats(0, 1)) * cz * (1 - 1e-6)
